@@ -285,6 +285,36 @@ def sibling(case):
     return fr
 
 
+def check_marks(out, text, v, what):
+    """The per-constraint marks of the printed report against the library's
+    verdicts (an oracle of its own: the command line and str(v) share the
+    code that prints them)."""
+    seen = 0
+    for ln in text.split('\n'):
+        m = re.match(r'^(.+?): (\d+) failures?  (\d+) pass(?:es)?  (.*)$', ln)
+        if not m or m.group(1) not in v.fields:
+            continue
+        seen += 1
+        ver = v.fields[m.group(1)]
+        marks = {}
+        for item in m.group(4).split('  '):
+            parts = item.rsplit(' ', 1)
+            if len(parts) == 2:
+                marks[parts[0]] = parts[1]
+        want = {k: (None if x is None else bool(x)) for (k, x) in ver.items()}
+        got = {k: {'\u2713': True, 'OK': True, '\u2717': False, 'X': False,
+                   '-': None}.get(x, x) for (k, x) in marks.items()}
+        if got != want or (int(m.group(2)), int(m.group(3))) != (
+                ver.failures, ver.passes):
+            out.violate(what, 'report-marks',
+                        'report line %r; the library\'s verdicts for that '
+                        'field are %r (%d failures, %d passes)'
+                        % (ln, want, ver.failures, ver.passes))
+            return
+    if seen:
+        out.label('report-marks-checked')
+
+
 def run(case, ctx):
     from tdda.constraints import discover_df, verify_df, detect_df
     from tdda.constraints.pd.constraints import load_df
@@ -584,6 +614,7 @@ def run(case, ctx):
             out.violate('verify', 'report-text',
                         'tdda verify %s output differs from str(verify_df('
                         '...)):\n%s' % (' '.join(flags), diff))
+        check_marks(out, so, v, 'verify')
         if use_sub:
             rc, so2, se2 = run_sub(argv, d, stdin_text)
             if rc != 0 or so2 != want:
@@ -625,6 +656,14 @@ def run(case, ctx):
     argv = ['detect'] + dflags + [data_arg, cpath_arg, cli_out]
     if isinstance(of, list):
         argv += ['--output-fields'] + list(of)
+    STALE = b'RowNumber,n_failures\n999,9\n'
+    stale = (case['frame']['n'] + len(dflags)) % 2 == 0
+    if stale:
+        # an earlier run's output is still at the path given
+        for p_ in (cli_out, lib_out):
+            with open(p_, 'wb') as f:
+                f.write(STALE)
+        out.label('history:output-path-holds-an-earlier-result')
     status, so, se, raised = run_cli(argv)
     ok, v = quiet(detect_df, ldf.copy(), cpath, outpath=lib_out,
                   rownumber_is_index=False, report='records', **dkw)
@@ -653,6 +692,15 @@ def run(case, ctx):
                         % (' '.join(dflags), m1 and m1.group(1),
                            m2 and m2.group(1), v.detection.n_passing_records,
                            v.detection.n_failing_records))
+    check_marks(out, so, v, 'detect')
+    if stale:
+        for (who, p_) in (('tdda detect', cli_out), ('detect_df', lib_out)):
+            if os.path.exists(p_) and open(p_, 'rb').read() == STALE:
+                out.violate('detect', 'stale-output-left',
+                            '%s %s: the output path still holds the earlier '
+                            'run\'s records (this run: %d failing records)'
+                            % (who, ' '.join(dflags), nrec))
+                return out
     e1, e2 = os.path.exists(cli_out), os.path.exists(lib_out)
     if e1 != e2:
         out.violate('detect', 'output-file-existence',
@@ -668,11 +716,11 @@ def run(case, ctx):
                             'tdda detect %s wrote %r..., library wrote %r...'
                             % (' '.join(dflags), a[:300], b[:300]))
         else:
-            a = pd.read_parquet(cli_out)
-            b = pd.read_parquet(lib_out)
             try:
+                a = pd.read_parquet(cli_out)
+                b = pd.read_parquet(lib_out)
                 pd.testing.assert_frame_equal(a, b)
-            except AssertionError as e:
+            except Exception as e:
                 out.violate('detect', 'output-file-content',
                             'tdda detect %s parquet output differs from the '
                             'library\'s: %s' % (' '.join(dflags),
